@@ -67,6 +67,27 @@ Theorem C01_pairwise : forall o its i j a c, chain_dominates o (sorted_items its
 Proof. exact C01_pairwise_lemma. Qed.
 Print Assumptions C01_pairwise.
 
+(* WITHOUT the guard the "any two items" reading of the property text is
+   false -- of the model and of the code alike (known finding
+   "stub-label-stub-gap").  Witness: layer 0 of  labels (0,40) (50.5,30)
+   (50.5,0.25) (50.5,30) (100,40), minPos 0, maxPos 100, algorithm simple,
+   nodeSpacing 0, density 1, stubWidth 1:  the two stubs are reported at 50 and
+   51, 1 apart, where (1+1)/2 + lineSpacing - 1 = 2 is demanded; the label of
+   width 0.25 between them is narrower than lineSp - 2 nodeSp = 2. *)
+Theorem C01_pairwise_unguarded_refuted : exists o its i j a c,
+  opts_ok o /\ items_ok its /\ (i < j)%nat /\
+  nth_error (sorted_items its) i = Some a /\ nth_error (sorted_items its) j = Some c /\
+  inject_Z (nth j (solve_layer o its) 0%Z) - inject_Z (nth i (solve_layer o its) 0%Z) < gap o a c - 1.
+Proof.
+  exists (mkOpts 0 2 (Some 0) (Some 100)).
+  exists [mkItem 0 40 false; mkItem (101 # 2) 1 true; mkItem (101 # 2) (1 # 4) false;
+          mkItem (101 # 2) 1 true; mkItem 100 40 false].
+  exists 1%nat, 3%nat, (mkItem (101 # 2) 1 true), (mkItem (101 # 2) 1 true).
+  split; [split; discriminate|]. split; [repeat constructor; discriminate|].
+  split; [repeat constructor|]. vm_compute. repeat split; reflexivity.
+Qed.
+Print Assumptions C01_pairwise_unguarded_refuted.
+
 (* the guard can fail only for a label narrower than lineSp - 2 nodeSp *)
 Theorem C01_guard_simple : forall o s, opts_ok o -> items_ok s ->
   (forall b, In b s -> stub b = false -> lineSp o <= wid b + 2 * nodeSp o) ->
